@@ -6,6 +6,7 @@ statements are for row histories of any length, any nesting, any reader list and
 filter; proofs are by induction over the history.
 -/
 import Rpft.Lemmas.Index
+import Rpft.Props.C11
 import Rpft.Gen.Tables
 set_option linter.unusedSimpArgs false
 set_option linter.unusedVariables false
@@ -251,19 +252,27 @@ example (rd : List Workbook) (pats) (fuel : Nat) :
   · simp [getSheetsByName, List.filterMap_append, Dict.get]
   · simp [getSheetsByName, List.filterMap_append, Dict.get]
 
-/-! ### not proved in this round (kept visible) -/
+/-! ### data sheets -/
 
-/-- data sheets registered by `data_sheet` rows: the sheet under name `n` at the end is the one
-computed by the LAST `data_sheet` row targeting `n` (no `ignore_row` removes it).  At the level
-of the data operations this is `C11.chain_untouched` / `C11.registered_persists`; the lifting to
-index histories (rows of other types leave `St.data` alone) is not proved here. -/
-def last_wins_data_full : Prop :=
-  ∀ (res : Resolve) (pre post : List IndexRow) (r : IndexRow) (st st1 st2 out : St) (t : Str),
-    runFlat res st pre = .ok st1 → step res st1 r = .ok st2 → runFlat res st2 post = .ok out →
-    kindOf r.ty = .dataSheet →
-    DataOps.targetName { sources := r.sheetNames, newName := r.newName, kind := .none } = .ok t →
-    (∀ x ∈ post, kindOf x.ty = .dataSheet →
-      DataOps.targetName { sources := x.sheetNames, newName := x.newName, kind := .none } ≠ .ok t) →
-    out.data.data.get t = st2.data.data.get t
+/-- **last_wins_data**: along any flat history the data-sheet registry evolves exactly as the
+C11 chain formed by the history's `data_sheet` rows: rows of every other type — `ignore_row`
+included — leave it alone.  All chain theorems of C11 therefore apply (`registered_persists`:
+the sheet under a name is the one computed by the LAST `data_sheet` row targeting it). -/
+theorem last_wins_data (res : Resolve) (rows : List IndexRow) (st out : St)
+    (h : runFlat res st rows = .ok out) :
+    DataOps.runOps (dataEnv res) st.data (dataOpsOf rows) = .ok out.data :=
+  runFlat_data rows h
+
+/-- in particular a registered data sheet that no `data_sheet` row of the history targets is
+untouched at the end -/
+theorem data_untouched (res : Resolve) (rows : List IndexRow) (st out : St)
+    (h : runFlat res st rows = .ok out) (n : Str)
+    (hn : ∀ r ∈ rows, kindOf r.ty = .dataSheet → DataOps.targetName (dataOpOf r) ≠ .ok n) :
+    out.data.data.get n = st.data.data.get n := by
+  apply C11.chain_untouched _ (runFlat_data rows h)
+  intro op hop
+  simp only [dataOpsOf, List.mem_map, List.mem_filter, decide_eq_true_eq] at hop
+  obtain ⟨r, ⟨hr, hk⟩, rfl⟩ := hop
+  exact hn r hr hk
 
 end Rpft.Props.C10
